@@ -127,7 +127,7 @@ func (exec *Executor) execAnyNode(
 	switch value := value.(type) {
 	case map[string]any:
 		return exec.executeAnyItem(
-			ctx, next, slices.Collect(maps.Values(value)), found, 1,
+			ctx, next, memberValues(value), found, 1,
 			node.First(), node.Last(), true, exec.autoUnwrap(),
 		)
 	case []any:
@@ -140,12 +140,26 @@ func (exec *Executor) execAnyNode(
 	return statusNotFound, nil
 }
 
+// memberValues returns the values of obj in the order of its sorted keys.
+// Lax mode stops at the first item it finds or the first error it meets, so
+// the order in which the members are visited decides more than the order of
+// the output; Go's randomized map iteration would make the result of a path
+// such as exists($.*.double()) vary from call to call.
+func memberValues(obj map[string]any) []any {
+	keys := slices.Sorted(maps.Keys(obj))
+	values := make([]any, len(keys))
+	for i, key := range keys {
+		values[i] = obj[key]
+	}
+	return values
+}
+
 // collection converts v into a slice of values if it's either a map or a
 // slice. Otherwise it returns nil.
 func collection(v any) []any {
 	switch v := v.(type) {
 	case map[string]any:
-		return slices.Collect(maps.Values(v)) // Just work with the values
+		return memberValues(v) // Just work with the values
 	case []any:
 		return v
 	}
